@@ -659,9 +659,7 @@ Section EventSource.
     intros dbg limit. unfold rta_event_source, bound_response_time.
     rewrite (search_dbg_irrelevant sbf st Hinv Hsbf0 Hlip demand Hm dbg limit).
     destruct (search_with_offset st 0 limit demand) as [M|o l|]; cbn [rbind]; try reflexivity.
-    cbv zeta. destruct (existsb (fun d => d =? 0) (steps (M + 1))) eqn:EX; [|reflexivity].
-    exfalso. apply existsb_exists in EX. destruct EX as (d & Hd & Hd0).
-    apply N.eqb_eq in Hd0. apply Hs in Hd. lia.
+    cbv zeta. rewrite filter_pos_id by (intros d Hd; apply Hs in Hd; lia). reflexivity.
   Qed.
 
   Lemma es_offs_in : forall M A, In A (es_offs M) <-> A <= M /\ demand A < demand (A + 1).
